@@ -319,3 +319,13 @@ pub fn replay(part: &str, bytes: &[u8], case: &Value, stats: &mut Stats) -> Verd
         _ => part_m(bytes, stats),
     }
 }
+
+/// Byte-level entry for the fuzz target (first byte selects the family).
+pub fn fuzz_entry(bytes: &[u8]) -> Verdict {
+    let mut st = Stats::new();
+    if bytes.first().map(|b| b & 1 == 1).unwrap_or(false) {
+        part_d(&bytes[1..], &mut st)
+    } else {
+        part_m(bytes.get(1..).unwrap_or(&[]), &mut st)
+    }
+}
